@@ -249,6 +249,12 @@ func (e *Exec) atReturn(fr *Frame, ret *ssa.Return, rv Val) {
 		env.bindResult(fr.fn, resT, rv)
 	}
 	for i, en := range e.spec.Ensures {
+		if strings.HasPrefix(en.Label, "assumed") {
+			// definitional clause (names the result of a deterministic function by an uninterpreted
+			// function): used by callers, not provable from the body; listed as an assumption
+			e.flag("assumed-clause: " + en.Src)
+			continue
+		}
 		t, err := env.evalBool(en.E)
 		if err != nil {
 			e.errs = append(e.errs, fmt.Sprintf("%s: %v", en.Line, err))
@@ -297,7 +303,7 @@ func (e *Exec) frameCheck(fr *Frame, env *SpecEnv, pos string) {
 		if cur == old {
 			continue
 		}
-		if strings.HasPrefix(k, "X:") {
+		if strings.HasPrefix(k, "X:") || strings.HasPrefix(k, "R:") {
 			continue // ghost state is framed by the contracts that mention it
 		}
 		if strings.HasPrefix(k, "G:") {
